@@ -209,7 +209,7 @@ def countOK (r : Gen.AttrRow) (n : Nat) : Bool :=
   decide (r.minArgs ≤ n) && (match r.maxArgs with | some m => decide (n < m) | none => true)
 
 def argOK (r : Gen.AttrRow) (x : String) : Bool :=
-  if r.lintArgs then Gen.allowableLintIdentifiers.contains x && !Gen.allowExcluded.contains x
+  if r.lintArgs then Gen.allowableLintIds.contains x && !Gen.allowExcluded.contains x
   else r.argLiterals.isEmpty || r.argLiterals.contains x
 
 /-- `parse_from` of the built-in attributes and the unknown-directive arm of `patch_attributes!` -/
